@@ -30,12 +30,19 @@ TIMES = {
 }
 # abstract chunk -> bytes, per content-type class: valid UTF-8 (multi-byte) for the utf8 text type, Latin-1 bytes for
 # the charset-less text type, undecodable bytes incl. NUL for the binary types
+# e1|e2 and s1|s2 cut a 2-byte (U+00E9) and a 4-byte (U+1F600) character in the middle: the detail as a whole is valid
+# UTF-8 but no single chunk of the pair is (as_text must not depend on where the chunks are cut)
+_SPLIT = {"e1": b"caf\xc3", "e2": b"\xa9 \xe2\x98\x83", "s1": b"\xf0\x9f", "s2": b"\x98\x80 end\n"}
 CHUNKS = {
-    "text": {"": b"", "x": "xé".encode(), "yz": "y\U0001f600z\n".encode()},
-    "par": {"": b"", "x": b"x\xe9", "yz": b"yz\r\n"},
-    "bin": {"": b"", "x": b"\xff\x00", "yz": b"\xfe\x80yz\xc3"},
-    "binp": {"": b"", "x": b"\x00\xff", "yz": b"\xc3yz\x80\xfe"},
+    "text": dict({"": b"", "x": "xé".encode(), "yz": "y\U0001f600z\n".encode()}, **_SPLIT),
+    "par": dict({"": b"", "x": b"x\xe9", "yz": b"yz\r\n"}, **_SPLIT),
+    "bin": dict({"": b"", "x": b"\xff\x00", "yz": b"\xfe\x80yz\xc3"}, **_SPLIT),
+    "binp": dict({"": b"", "x": b"\x00\xff", "yz": b"\xc3yz\x80\xfe"}, **_SPLIT),
 }
+# abstract content type -> chunk table; the case-variant pairs are a utf8 text type and a binary type
+CT_CLASS = {"text": "text", "par": "par", "bin": "bin", "binp": "binp", "tiA": "text", "tiB": "text", "bdA": "bin", "bdB": "binp"}
+# class of a content type in violation signatures: the members of a case-variant pair are one class
+CT_SIG = {"tiA": "param-value-case", "tiB": "param-value-case", "bdA": "param-value-case", "bdB": "param-value-case"}
 OUTCOME_CALL = {
     "success": "addSuccess",
     "failure": "addFailure",
@@ -74,6 +81,11 @@ def _lib():
                 # parameter value with space, quote, backslash, semicolon, '=', comma and non-ASCII: must survive the wire
                 "par": ContentType("text", "x-t", {"a": 'b "c" \\d; e=f, g \u00e9', "k": "v"}),
                 "binp": ContentType("application", "x-bin", {"n": "1"}),
+                # pairs differing only in the letter case of a parameter value
+                "tiA": ContentType("text", "plain", {"charset": "utf8", "title": "build log"}),
+                "tiB": ContentType("text", "plain", {"charset": "utf8", "title": "Build Log"}),
+                "bdA": ContentType("application", "x-report", {"boundary": "abcdef"}),
+                "bdB": ContentType("application", "x-report", {"boundary": "aBcDeF"}),
                 "tb": ContentType("text", "x-traceback", {"language": "python", "charset": "utf8"}),
             },
         )
@@ -85,7 +97,7 @@ def chunk_bytes(ct, name, c):
         return _lib()["tb"][c]
     if name == "reason" and c in REASONS:
         return REASONS[c].encode("utf8")
-    return CHUNKS[ct][c]
+    return CHUNKS[CT_CLASS[ct]][c]
 
 
 def ts_of(v):
@@ -356,7 +368,7 @@ def check_out(p, h, tests):
             raise Bad("rt-detail-bytes", cls, data, got[n][1])
         # the real ContentType.__eq__, both ways round
         if not (got[n][0] == ct and ct == got[n][0]):
-            raise Bad("rt-detail-ctype", act, repr(ct), repr(got[n][0]))
+            raise Bad("rt-detail-ctype", CT_SIG.get(act, act), repr(ct), repr(got[n][0]))
     extra = sorted(set(got) - set(want))
     if extra:
         raise Bad("rt-detail-extra", h["arg"]["form"], sorted(want), sorted(got))
@@ -367,17 +379,23 @@ def replay(beh, upto=None):
     p = Pipeline()
     hist = beh["hist"] if upto is None else beh["hist"][:upto]
     for i, h in enumerate(hist):
+        raised = None
         try:
             p.apply(h)
         except tlc.MachineryError:
             raise
-        except Exception as ex:  # the converters never raise on well-formed histories
-            return (i, "raised", type(ex).__name__ + ":" + h["a"], None, repr(ex))
+        except Exception as ex:  # the converters never raise on well-formed histories ...
+            raised = ex
         try:
             check_wire(p, h, beh["wire"])
             check_out(p, h, beh["tests"])
         except Bad as b:
-            return (i, b.clause, b.extra, b.expected, b.observed)
+            # ... and when one does, name what the property loses by it (e.g. the final status never reached the wire)
+            extra = b.extra + (":raised-" + type(raised).__name__ if raised is not None else "")
+            obs = b.observed if raised is None else {"observed": b.observed, "raised": repr(raised)}
+            return (i, b.clause, extra, b.expected, obs)
+        if raised is not None:
+            return (i, "raised", type(raised).__name__ + ":" + h["a"], None, repr(raised))
     return None
 
 
@@ -430,7 +448,8 @@ def run(tier, pid="C09"):
         "model_checking",
         "behaviours = well-formed TestResult histories startTestRun (time|tags)* (startTest (time|tags)* outcome stopTest)* "
         "stopTestRun over 0..3 tests, six outcome kinds in plain/exc_info/details/reason form, 0..2 details of 0..3 chunks "
-        "over {'', x, yz} with four content types, exported by TLC (exhaustive per bounded instance) or by tlc -simulate; "
+        "over {'', x, yz} plus chunk pairs cut inside a 2-byte / 4-byte UTF-8 character, with eight content types (two pairs "
+        "differing only in the case of a parameter value, both orders in one history), exported by TLC (exhaustive per bounded instance) or by tlc -simulate; "
         "each replayed into the real ExtendedToStreamDecorator -> (StreamResult double, StreamToExtendedDecorator -> "
         "ExtendedTestResult double) with per-call comparison of the wire and of the reproduced brackets. Non-trivial = a "
         "detail with 0 or >=2 chunks or an empty chunk, >=2 details, >=2 tests, or tags()/time() in force; distinct by "
@@ -442,7 +461,8 @@ def run(tier, pid="C09"):
     rep.assume("timestamps when no time() was supplied: only tz-aware and non-decreasing is required")
     rep.assume("file-event timestamps and the wire's mime_type spelling are not compared (content types are compared on the reproduced details with ContentType.__eq__)")
     rep.assume("order of different details' runs on the wire is not compared (each run must be contiguous and in chunk order)")
-    rep.assume("ContentType repr/parse is identity on the four explored content types in the model; pathological types are C16's")
+    rep.assume("ContentType repr/parse is identity on the eight explored (lower-case type/subtype/parameter-name) content types in the model; upper-case type or parameter names and pathological values are C16's excluded domain")
+    rep.assume("all histories of a run are replayed in one process, so module-level state in the converters (e.g. a parse cache) carries over between them; case-variant content types are also paired inside single histories in both orders")
     rep.assume("the exc_info form uses one ValueError whose TracebackContent yields 3 chunks (checked at start-up)")
     sim_mod = "MCStreamConvSim"
     if tier == "quick":
